@@ -172,6 +172,10 @@ func genNyctMsg(t *rapid.T, zone string) (*rgen.Msg, int, int, bool) {
 		}
 		d.Nyct = n
 		tu := &rgen.TripUpdate{Trip: d}
+		if ts != 0 && rapid.IntRange(0, 2).Draw(t, "tripTimestamp") == 0 {
+			// a trip-level timestamp on either side of the header timestamp: staleness is judged against the header
+			tu.Timestamp = rgen.P(uint64(int64(ts) + int64(rapid.SampledFrom([]int{-3600, -2, -1, 1, 2, 3600}).Draw(t, "tripTsOffset"))))
+		}
 		nS := rapid.IntRange(0, 4).Draw(t, "nSTU")
 		for j := 0; j < nS; j++ {
 			s := rgen.GenSTU(t)
